@@ -50,7 +50,9 @@ def run(tier, seed, replay=None):
         k = r.below(4)
         for i in range(k):
             pos = r.below(len(lines) + 1)
-            lines.insert(pos, r.choice(["FUNC", "PROC"]) + f" p{i}")
+            # names of every length: the trace label is "<name>+<offset>" whatever its width
+            name = r.choice([f"p{i}", f"p{i}", f"procedure_with_a_long_name_{i}", f"q{i}" + "x" * r.below(48), f"f{i}_" + "ab" * r.below(9)])
+            lines.insert(pos, r.choice(["FUNC", "PROC"]) + " " + name)
         sources.append(G.render(r, lines))
     recs = A.assemble_all(h, drv, sources)
     chk_in, idx = [], []
